@@ -709,8 +709,9 @@ Hypothesis Hif : if_test (strip line) = true ->
   Gx (x_conditional xs L i) -> erase (x_conditional xs L' (d + i)) = erase (x_conditional xs L i).
 Hypothesis Hfor : for_test (strip line) = true ->
   Gx (x_loop xs L i) -> erase (x_loop xs L' (d + i)) = erase (x_loop xs L i).
-Hypothesis Hjoin : forall ind, join_site line = true ->
-  GxJ (x_join xs L (S i) ind) -> erase (x_join xs L' (S (d + i)) ind) = erase (x_join xs L (S i) ind).
+Hypothesis Hjoin : join_site line = true ->
+  GxJ (x_join xs L (S i) (indent_of line)) ->
+  erase (x_join xs L' (S (d + i)) (indent_of line)) = erase (x_join xs L (S i) (indent_of line)).
 Hypothesis Heme : forall code,
   P (i + snd (extract_multiline_expression L i code)) \/ Q ->
   extract_multiline_expression L' (d + i) code = extract_multiline_expression L i code.
@@ -768,7 +769,7 @@ Proof.
     intros HG.
     assert (Hg : GxJ (x_join xs L (S i) (indent_of line))).
     { destruct (x_join xs L (S i) (indent_of line)) as [[[bc be] n]|?|?|]; exact HG. }
-    specialize (Hjoin (indent_of line) Hs Hg). revert HG. apply SR_bind; [exact Hjoin|].
+    specialize (Hjoin Hs Hg). revert HG. apply SR_bind; [exact Hjoin|].
     intros [[bc be] n] _. sr_ok. }
   destruct (nonempty (strip line)); [|sr_ok].
   destruct (endswith (rstrip line) "<>").
@@ -882,7 +883,6 @@ Proof.
   - apply (step_tail1_sim st l2 Hl).
 Qed.
 
-(*STEPSIM*)
 End StepSim.
 
 (* ---- comment lines ---- *)
@@ -1319,16 +1319,17 @@ Definition xs_local (xs : extractors) (L : list string) (k : nat) (c : string) :
      forall t n, x_conditional xs L i = POk (t, n) -> i + n <= k -> x_conditional xs L' i = POk (t, n)) /\
   (forall i line, i < k -> nth_error L i = Some line -> for_test (strip line) = true ->
      forall t n, x_loop xs L i = POk (t, n) -> i + n <= k -> x_loop xs L' i = POk (t, n)) /\
-  (forall i line ind, i < k -> nth_error L i = Some line -> join_site line = true ->
-     forall r n, x_join xs L (S i) ind = POk (r, n) -> S (i + n) <= k -> x_join xs L' (S i) ind = POk (r, n)) /\
+  (forall i line, i < k -> nth_error L i = Some line -> join_site line = true ->
+     forall r n, x_join xs L (S i) (indent_of line) = POk (r, n) -> S (i + n) <= k ->
+     x_join xs L' (S i) (indent_of line) = POk (r, n)) /\
   (forall i line, k <= i -> nth_error L i = Some line -> py_test (strip line) = true ->
      erase (x_python xs L' (S i)) = erase (x_python xs L i)) /\
   (forall i line, k <= i -> nth_error L i = Some line -> if_test (strip line) = true ->
      erase (x_conditional xs L' (S i)) = erase (x_conditional xs L i)) /\
   (forall i line, k <= i -> nth_error L i = Some line -> for_test (strip line) = true ->
      erase (x_loop xs L' (S i)) = erase (x_loop xs L i)) /\
-  (forall i line ind, k <= i -> nth_error L i = Some line -> join_site line = true ->
-     erase (x_join xs L' (S (S i)) ind) = erase (x_join xs L (S i) ind)).
+  (forall i line, k <= i -> nth_error L i = Some line -> join_site line = true ->
+     erase (x_join xs L' (S (S i)) (indent_of line)) = erase (x_join xs L (S i) (indent_of line))).
 
 (* outcome of the loop, up to recorded line numbers and diagnostic indices *)
 Definition loop_rel (r r' : pres pstate) : Prop :=
@@ -1375,8 +1376,8 @@ Proof.
         simpl in Hg. rewrite (B2 i line Hi En Ht t n Ex Hg). reflexivity.
       - intros Ht Hg. simpl. destruct (x_loop xs L i) as [[t n]|?|?|] eqn:Ex; try contradiction.
         simpl in Hg. rewrite (B3 i line Hi En Ht t n Ex Hg). reflexivity.
-      - intros ind Ht Hg. simpl. destruct (x_join xs L (S i) ind) as [[r n]|?|?|] eqn:Ex; try contradiction.
-        simpl in Hg. rewrite (B4 i line ind Hi En Ht r n Ex Hg). reflexivity.
+      - intros Ht Hg. simpl. destruct (x_join xs L (S i) (indent_of line)) as [[r n]|?|?|] eqn:Ex; try contradiction.
+        simpl in Hg. rewrite (B4 i line Hi En Ht r n Ex Hg). reflexivity.
       - intros code [Hc|[]]. simpl. apply eme_insert_before; [exact Hc|exact Hk]. }
     rewrite Es in S1. destruct (S1 Hle) as [l3 [E3 H3]]. simpl in E3. rewrite E3.
     apply IH; assumption.
@@ -1399,7 +1400,7 @@ Proof.
       - intros Ht _. exact (A1 i line Hi En Ht).
       - intros Ht _. exact (A2 i line Hi En Ht).
       - intros Ht _. exact (A3 i line Hi En Ht).
-      - intros ind Ht _. exact (A4 i line ind Hi En Ht).
+      - intros Ht _. exact (A4 i line Hi En Ht).
       - intros code _. apply eme_insert_after; lia. }
     change (1 + i) with (S i) in S1.
     destruct (parse_step pp xs L i line st) as [[st' i']|dd|kk|] eqn:Es.
@@ -1451,13 +1452,21 @@ Definition top_level_at (pp : pyparse) (xs : extractors) (ls : list string) (k :
   | _ => false
   end.
 
+(* the inserted line as the main loop sees it: without its own trailing // comment when it stands in
+   the story (after the first passage header), as written in the preamble *)
+Definition seen_comment (ls : list string) (k : nat) (c : string) : string :=
+  match prepass_at ls None false 0 k with
+  | Some (_, true, _) => bare_of c
+  | _ => c
+  end.
+
 Lemma hash_line_invisible_lemma : forall pp is_call xs ls k c,
   extractors_ok xs ->
   k < List.length ls -> is_hash c = true -> top_level_at pp xs ls k = true ->
-  (forall c', is_hash c' = true -> xs_local xs (spcop ls None false 0) k c') ->
+  xs_local xs (spcop ls None false 0) k (seen_comment ls k c) ->
   erase (parse pp is_call xs (insert_at k c ls)) = erase (parse pp is_call xs ls).
 Proof.
-  intros pp is_call xs ls k c Hx Hk Hc Ht Hloc. unfold top_level_at in Ht.
+  intros pp is_call xs ls k c Hx Hk Hc Ht Hloc. unfold top_level_at in Ht. unfold seen_comment in Hloc.
   destruct (prepass_at ls None false 0 k) as [[[[cl|] ins] [|sk]]|] eqn:Ep; try discriminate.
   destruct (loop_to pp xs (S (List.length ls)) (spcop ls None false 0) k 0 init_state) as [stk|] eqn:El;
     [|discriminate].
@@ -1467,7 +1476,8 @@ Proof.
   set (c' := if ins then bare_of c else c).
   assert (Hc' : is_hash c' = true) by (unfold c'; destruct ins; [apply is_hash_bare|]; exact Hc).
   assert (HkL : k < List.length L) by (unfold L; rewrite spcop_length; exact Hk).
-  pose proof (loop_insert pp xs Hx L k c' HkL (Hloc c' Hc') _ stk Hc' El Ht) as R.
+  assert (Hloc' : xs_local xs L k c') by (unfold c'; destruct ins; exact Hloc).
+  pose proof (loop_insert pp xs Hx L k c' HkL Hloc' _ stk Hc' El Ht) as R.
   destruct (parse_loop pp xs (S (List.length L)) L (List.length L) 0 init_state) as [s|dd|kk|].
   - destruct R as [l3 [-> H3]]. cbn [pbind].
     change (flush_current (set_locs s l3)) with (flush_current s).
@@ -1510,7 +1520,7 @@ Lemma hash_line_invisible_blockfree_lemma : forall pp is_call xs ls k c,
 Proof.
   intros pp is_call xs ls k c Hx Hb Hk Hc Ht.
   apply hash_line_invisible_lemma; try assumption.
-  intros c' _. apply blockfree_local. exact Hb.
+  apply blockfree_local. exact Hb.
 Qed.
 
 (* a compiled story is exactly the same story *)
@@ -2028,3 +2038,32 @@ Proof.
   rewrite !skipn_app, !Nat.sub_diag, !skipn_all. cbn [skipn app].
   rewrite loop_collect_header_at, loop_collect_header_legacy by assumption. reflexivity.
 Qed.
+
+(* ---- statements in the form Props/C17.v quotes them ---- *)
+
+Lemma prepass_decorate_rstrips : forall ls dec,
+  within dec (story_mask ls None false 0) = true ->
+  strip_comments_outside_python (decorate dec ls) None false 0 =
+  rstrip_at dec (strip_comments_outside_python ls None false 0).
+Proof. intros ls dec. exact (prepass_decorate_gen ls dec None false 0). Qed.
+
+Lemma prepass_insert : forall k ls ins c,
+  prepass_at ls None false 0 k = Some (None, ins, 0) -> k < List.length ls -> is_hash c = true ->
+  strip_comments_outside_python (insert_at k c ls) None false 0 =
+  insert_at k (if ins then bare_of c else c) (strip_comments_outside_python ls None false 0).
+Proof. intros k ls ins c. exact (prepass_insert_gen k ls None false 0 ins c). Qed.
+
+Lemma hash_line_same_story_blockfree_lemma : forall pp is_call xs ls k c s,
+  extractors_ok xs ->
+  blockfree (strip_comments_outside_python ls None false 0) = true ->
+  k < List.length ls -> is_hash c = true -> top_level_at pp xs ls k = true ->
+  parse pp is_call xs ls = POk s -> parse pp is_call xs (insert_at k c ls) = POk s.
+Proof.
+  intros pp is_call xs ls k c s Hx Hb Hk Hc Ht Hs.
+  exact (erase_ok_eq _ _ _ s (hash_line_invisible_blockfree_lemma pp is_call xs ls k c Hx Hb Hk Hc Ht) Hs).
+Qed.
+
+Lemma for_header_forms_read_back : forall v coll, var_ok v = true -> cond_ok coll = true ->
+  match_for_colon ("@for " ++ v ++ " in " ++ coll ++ ":") = Some (v, coll) /\
+  match_for_legacy ("<<for " ++ v ++ " in " ++ coll ++ ">>") = Some (v, coll).
+Proof. intros v coll Hv Hc. split; [apply match_for_colon_forms|apply match_for_legacy_forms]; assumption. Qed.
